@@ -107,6 +107,8 @@ impl TtlLease {
     ) -> Vec<Bytes> {
         let start = Instant::now();
         let now = SystemTime::now();
+        #[cfg(feature = "__verif")]
+        let now = { let _ = now; d_engine_core::verif_hooks::system_time_now() };
 
         // Phase 1: collect expired keys (read-only, with time limit)
         let to_remove: Vec<Bytes> = self
@@ -153,6 +155,8 @@ impl TtlLease {
         };
 
         let now = SystemTime::now();
+        #[cfg(feature = "__verif")]
+        let now = { let _ = now; d_engine_core::verif_hooks::system_time_now() };
         let manager = Self::new(config);
 
         // Rebuild single index, skipping expired keys
@@ -219,6 +223,8 @@ impl Lease for TtlLease {
 
         // Calculate absolute expiration time
         let expire_at = SystemTime::now() + Duration::from_secs(ttl_secs);
+        #[cfg(feature = "__verif")]
+        let expire_at = { let _ = expire_at; d_engine_core::verif_hooks::system_time_now() + Duration::from_secs(ttl_secs) };
 
         // Single index update (overwrites old value if exists)
         // DashMap::insert is lock-free (only single shard write lock)
@@ -247,6 +253,10 @@ impl Lease for TtlLease {
         &self,
         key: &[u8],
     ) -> bool {
+        #[cfg(feature = "__verif")]
+        if let Some(expire_at) = self.key_to_expiry.get(key) {
+            return *expire_at <= d_engine_core::verif_hooks::system_time_now();
+        }
         if let Some(expire_at) = self.key_to_expiry.get(key) {
             *expire_at <= SystemTime::now()
         } else {
@@ -376,6 +386,8 @@ impl Lease for TtlLease {
         })?;
 
         let now = SystemTime::now();
+        #[cfg(feature = "__verif")]
+        let now = { let _ = now; d_engine_core::verif_hooks::system_time_now() };
 
         // Clear existing data
         self.key_to_expiry.clear();
